@@ -143,6 +143,65 @@ def probe_prims(ctx):
     return txt
 
 
+SITE_FUNCS = [("src/munged/dec.c", f) for f in ("dec_validate_msg", "dec_timestamp", "dec_authenticate", "dec_check_retry", "dec_unarmor",
+              "dec_unpack_outer", "dec_decrypt", "dec_validate_mac", "dec_decompress", "dec_unpack_inner", "dec_validate_auth",
+              "dec_validate_time", "dec_validate_replay")] + \
+             [("src/munged/enc.c", f) for f in ("enc_validate_msg", "enc_init", "enc_authenticate", "enc_check_retry", "enc_timestamp",
+              "enc_pack_outer", "enc_pack_inner", "enc_compress", "enc_mac", "enc_encrypt", "enc_armor", "enc_fini")]
+
+
+def error_sites(ctx):
+    """Ordered list, per stage function, of its m_msg_set_err call sites: (error enum name, message literal or "" for NULL).
+    The hand-written parsers of the model carry the same list; a check removed from, added to or reordered in the C
+    changes this generated list and breaks the `sites_agree` obligations."""
+    from .ktrans import load_ast, KError
+    out = {}
+    for rel, fn in SITE_FUNCS:
+        try:
+            ast = load_ast(ctx.repo, rel, fn)
+        except KError as e:
+            ctx.obligation("gen", "error sites of %s extracted" % fn, False, str(e))
+            return None
+        sites = []
+
+        def lit_of(n):
+            if isinstance(n, dict):
+                if n.get("kind") == "StringLiteral":
+                    return n.get("value", "").strip('"')
+                for c in n.get("inner", []):
+                    r = lit_of(c)
+                    if r is not None:
+                        return r
+            return None
+
+        def enum_of(n):
+            if isinstance(n, dict):
+                rd = n.get("referencedDecl")
+                if rd and rd.get("kind") == "EnumConstantDecl":
+                    return rd["name"]
+                for c in n.get("inner", []):
+                    r = enum_of(c)
+                    if r:
+                        return r
+            return None
+
+        def walk(n):
+            if isinstance(n, dict):
+                if n.get("kind") == "CallExpr":
+                    callee = n["inner"][0]
+                    while callee.get("kind") in ("ImplicitCastExpr", "ParenExpr"):
+                        callee = callee["inner"][0]
+                    if callee.get("referencedDecl", {}).get("name") == "m_msg_set_err":
+                        args = n["inner"][1:]
+                        sites.append((enum_of(args[1]) or "?", lit_of(args[2]) or ""))
+                        return
+                for c in n.get("inner", []):
+                    walk(c)
+        walk(ast)
+        out[fn] = sites
+    return out
+
+
 def generate(ctx):
     prims = probe_prims(ctx)
     kv = probe_consts(ctx)
@@ -162,6 +221,17 @@ def generate(ctx):
     body += "\n/-- order of the stage calls in `dec_process_msg` / `enc_process_msg` as listed to the translator -/\n"
     body += "def decStages : List String := [%s]\n" % ", ".join('"%s"' % s for s in DEC_STAGES)
     body += "def encStages : List String := [%s]\n\n" % ", ".join('"%s"' % s for s in ENC_STAGES)
+    sites = error_sites(ctx)
+    if sites is None:
+        return False
+    body += "/-- per stage function: its `m_msg_set_err` call sites in source order (error code, message literal; \"\" = NULL) -/\n"
+    body += "def errorSites : List (String × List (Int × String)) := [\n"
+    rows = []
+    for (rel, fn) in SITE_FUNCS:
+        items = ", ".join('(%s, "%s")' % (kv.get(c, "-1") if not kv.get(c, "-1").startswith("-") else "(%s)" % kv[c], t.replace("\\", "\\\\").replace('"', '\\"'))
+                          for c, t in sites[fn])
+        rows.append('  ("%s", [%s])' % (fn, items))
+    body += ",\n".join(rows) + "]\n\n"
     body += d + "\n" + e + "\n" + prims + "\nend Munge.Gen.Dec\n"
     gen_write("Dec", body)
     return True
